@@ -868,6 +868,15 @@ var blockModel = map[string]map[string][]string{
 		"tr":   {"tc", "sdt", "sdtContent", "customXml"},
 		"tc":   {"p", "tbl", "sdt", "sdtContent", "customXml"},
 	},
+	// ODF 1.2 part 1: 9.1.2 table:table (rows directly or in header-rows / rows / row-group), 9.1.4 table:table-cell
+	// (paragraph content: p, h, list, table), 5.3.1 text:list, 5.3.4 text:list-item
+	"odt": {
+		"table":      {"table-row", "table-header-rows", "table-rows", "table-row-group"},
+		"table-row":  {"table-cell"},
+		"table-cell": {"p", "h", "list", "table"},
+		"list":       {"list-item", "list-header"},
+		"list-item":  {"p", "h", "list"},
+	},
 }
 
 func xmlTagName(tag string) string {
@@ -894,7 +903,7 @@ func xmlTagName(tag string) string {
 // R16.9 [C16]
 func ruleBlockContentModel(c *eng.Ctx) {
 	const R = "R16.9-BLOCK-CONTENT-MODEL"
-	c.Rule(R, "the decoders of the DOCX body, table, row and cell know every block-level child of the content model that carries text, including the grouping wrappers (content controls, custom XML) that may stand wherever their content may: a child kind a decoder has no field or dispatch label for is dropped with all the text below it", 4, 0)
+	c.Rule(R, "the decoders of the DOCX body, table, row and cell and of the ODT table, row, cell, list and list item know every block-level child of the content model that carries text, including the grouping wrappers (content controls, custom XML, header-row and row groups) that may stand wherever their content may: a child kind a decoder has no field or dispatch label for is dropped with all the text below it", 9, 0)
 	for _, pkg := range c.P.Pkgs {
 		model, ok := blockModel[pkg.Name]
 		if !ok || !strings.HasSuffix(pkg.PkgPath, "/"+pkg.Name) {
